@@ -1,8 +1,11 @@
 (* C14 - Removing a component type cascades completely and leaves a usable world.  (partial)
    Proved: after the archetype-level removal no surviving archetype keeps a cached transition
    labelled with the removed component, whatever the archetype graph looked like (this is the
-   statement that was false on the pinned tree).  Phases, notifications and usability of the
-   world afterwards are checked by the correspondence. *)
+   statement that was false on the pinned tree); and the archetype-level removal restores the
+   whole storage invariant, removing exactly the archetypes with the component and exactly
+   their entities, given that member_of lists exactly those archetypes (that premise is audited
+   on the implementation's snapshot after every call by the check, and compared with the model's
+   member_of lists).  Phases and notifications are checked by the correspondence. *)
 From Coq Require Import List NArith.
 Require Import EV.Base EV.World EV.ArchProofs.
 
@@ -12,3 +15,20 @@ Theorem c14_partial_no_transition_mentions_removed_component :
     alookup cidx (a_ins a) = None /\ alookup cidx (a_rem a) = None.
 Proof. exact no_transition_mentions_removed_component. Qed.
 Print Assumptions c14_partial_no_transition_mentions_removed_component.
+
+Require Import EV.SlotMap EV.Store EV.Effects EV.RemoveComp.
+
+Theorem c14_archetype_removal_leaves_a_consistent_world :
+  forall (cidx ctag : N) (w : world) (member_of : list N),
+    WInv w -> NoDup member_of ->
+    (forall ai a, arch_at w ai = Some a -> (In ai member_of <-> In cidx (a_comps a))) ->
+    let w' := archs_remove_component w cidx ctag member_of in
+    WInv w' /\
+    (forall j, arch_at w' j = match arch_at w j with
+                              | Some a => if existsb (N.eqb cidx) (a_comps a) then None else Some (strip_arch cidx a)
+                              | None => None end) /\
+    (forall j a, arch_at w' j = Some a -> alookup cidx (a_ins a) = None /\ alookup cidx (a_rem a) = None) /\
+    (forall k, In k (removed_rows w member_of) -> sm_get k (w_ents w') = None) /\
+    (forall k, ~ In k (removed_rows w member_of) -> sm_get k (w_ents w') = sm_get k (w_ents w) /\ forall c, abs w' k c = abs w k c).
+Proof. exact archs_remove_component_ok. Qed.
+Print Assumptions c14_archetype_removal_leaves_a_consistent_world.
